@@ -1061,6 +1061,23 @@ pub fn peer_random(args: &Args) {
         let mut peer_closed = false;
         if listener {
             w.api_listen(&mut t);
+            // now and then a handshake that is aborted first: a SYN announcing a large MSS, then a reset; the listener is
+            // back in LISTEN and what that SYN said must not colour the connection that follows
+            if rng.chance(15) {
+                let f = w.craft(0, None, 0, true, false, false, 4000, Some(1400), Some(3));
+                if !w.inject(f, &mut t, json!({"aborted": true})) {
+                    continue;
+                }
+                w.now += 1;
+                let f = w.craft(1, None, 0, false, false, true, 0, None, None);
+                if !w.inject(f, &mut t, json!({"aborted": true})) {
+                    continue;
+                }
+                w.now += 1;
+                if w.ep.state() != "LISTEN" {
+                    continue;
+                }
+            }
             let f = w.craft(0, None, 0, true, false, false, rng.range(0, 65535) as u16, peer_mss_opt, peer_ws);
             if !w.inject(f, &mut t, json!({})) {
                 continue;
@@ -1130,13 +1147,19 @@ pub fn peer_random(args: &Args) {
                 let maxlen = (mtu - 40).min(1460) as u64;
                 let mut len = if rng.chance(20) { 0 } else { rng.range_pick(0, &[1u64, 4, 64, maxlen]).min(maxlen) as i64 };
                 let mut fin = false;
-                if seq + len >= peer_total + 1 {
+                // beyond the peer's own FIN: once that FIN has been sent, a hostile peer may go on sending octets "after the
+                // end of its stream" (right behind the FIN's sequence number) -- none of them may reach the application
+                let beyond = peer_closed && rng.chance(8);
+                let seq = if beyond { peer_total + 2 + rng.below(3) as i64 } else { seq };
+                if beyond {
+                    len = rng.range(1, 40) as i64;
+                } else if seq + len >= peer_total + 1 {
                     len = (peer_total + 1 - seq).max(0);
                     if seq <= peer_total + 1 && rng.chance(60) {
                         fin = true;
                     }
                 }
-                if seq > peer_total + 1 {
+                if seq > peer_total + 1 && !beyond {
                     continue;
                 }
                 let sndnxt = w.ep.written + 1 + if w.ep.closed_at.is_some() { 1 } else { 0 };
